@@ -803,10 +803,10 @@ class EventSource(object):
                     # may need to update retry timer here
                     continue
 
-            field = field.decode('UTF-8')
+            field = field.decode('UTF-8', errors='replace')
             if value and value[0:1] == b' ':
                 del value[0]
-            value = value.decode('UTF-8')
+            value = value.decode('UTF-8', errors='replace')
 
             if field == u'event':
                 ename = value
